@@ -13,6 +13,13 @@ from pairwise import pairwise
 ABSENT = "absent"
 NONE = (ABSENT, None, True)
 
+def with_tagged(classes):
+    """every typed slot also gets its first valid value wrapped in a tag (epoch tag 1, encoded-CBOR tag 24, self-described
+    tag 55799): a tagged item is not of the slot's type"""
+    v = next((c[1] for c in classes if c[2] and c[1] is not None), None)
+    if v is None or isinstance(v, (bytes, list)): return classes
+    return classes + [("tag1", G(1, v), False), ("tag24", G(24, v), False), ("tag55799", G(55799, v), False)]
+
 def class_rows(fields, others, rng):
     """fields: lists of (class name, value, valid?) (optional fields start with NONE); others: lists of plain values.
     Three arrays: all pairs of VALID classes (every row is acceptable: the accept side, field values and
@@ -88,7 +95,7 @@ N_CARRIERS = 16
 
 def header_combo_cases(case, seed=1):
     rng = random.Random("hdr-combo/%d" % seed)
-    fields = [[NONE] + HDR_FIELD[l] for l in range(1, 8)] + [[NONE] + EXTRA]
+    fields = [[NONE] + with_tagged(HDR_FIELD[l]) for l in range(1, 8)] + [[NONE] + EXTRA]
     out = []
     for row in class_rows(fields, [ORDERS, STYLES, list(range(N_CARRIERS))], rng):
         entries = []; valid = True
@@ -128,7 +135,7 @@ KEY_EXTRA = [("crv", (I(-1), I(1)), True), ("crvhuge", (I(-1), I(2**64 - 1)), Tr
 
 def key_combo_cases(case, seed=1):
     rng = random.Random("key-combo/%d" % seed)
-    fields = [KEY_FIELD[1] + [(ABSENT, None, False)]] + [[NONE] + KEY_FIELD[l] for l in range(2, 6)] + [[NONE] + KEY_EXTRA]
+    fields = [with_tagged(KEY_FIELD[1]) + [(ABSENT, None, False)]] + [[NONE] + with_tagged(KEY_FIELD[l]) for l in range(2, 6)] + [[NONE] + KEY_EXTRA]
     out = []
     for row in class_rows(fields, [ORDERS, STYLES, ["CoseKey", "set1", "set2"]], rng):
         entries = []; valid = True
@@ -163,7 +170,7 @@ CLAIM_EXTRA = [("reg8", (I(8), M()), True), ("reg0", (I(0), I(2**64 - 1)), True)
 
 def claims_combo_cases(case, seed=1):
     rng = random.Random("claims-combo/%d" % seed)
-    fields = [[NONE] + CLAIM_FIELD[l] for l in range(1, 8)] + [[NONE] + CLAIM_EXTRA]
+    fields = [[NONE] + with_tagged(CLAIM_FIELD[l]) for l in range(1, 8)] + [[NONE] + CLAIM_EXTRA]
     out = []
     for row in class_rows(fields, [ORDERS, STYLES], rng):
         entries = []; valid = True
@@ -194,7 +201,7 @@ def kdf_combo_cases(case, seed=1):
     other = [NONE, ("bytes", B(b"o"), True), ("empty", B(b""), True), ("text", T("o"), False)]
     priv = [("none", [], True), ("one", [B(b"p")], True), ("two", [B(b""), B(b"q")], True), ("bad", [T("p")], False)]
     out = []
-    for row in class_rows([alg, ident, nonce, ident, nonce, kdl, prot, other, priv], [STYLES], rng):
+    for row in class_rows([with_tagged(alg), with_tagged(ident[1:]) + ident[:1], with_tagged(nonce[1:]) + nonce[:1], ident, nonce, with_tagged(kdl), prot, other, priv], [STYLES], rng):
         a, ui, un, vi, vn, k, p, o, pv, style = row
         valid = all(x[2] for x in (a, ui, un, vi, vn, k, p, o, pv))
         supp = [k[1], B(p[1])] + ([o[1]] if o[0] != ABSENT else [])
@@ -237,7 +244,7 @@ def msg_combo_cases(case, seed=1):
     out = []
     AR = [("exact", 0, True), ("plus1", 1, False), ("minus1", -1, False)]
     for ty, slots in shapes.items():
-        for row in class_rows(list(slots) + [AR], [STYLES], rng):
+        for row in class_rows([with_tagged(sl) for sl in slots] + [AR], [STYLES], rng):
             cls = row[:len(slots)]; ar = row[len(slots)]; style = row[-1]
             items = [c[1] for c in cls]; valid = all(c[2] for c in cls)
             if ar[1] == 1: items.append(NULL); valid = False
